@@ -33,7 +33,7 @@ func NewComponents(spec specification.Components, cfg Config) (zero Components, 
 		if err != nil {
 			return zero, nil, fmt.Errorf("new schema component: %w", err)
 		}
-		if schema.Ref == nil && schema.IsNullable() && schema.Kind() != SchemaKindObject {
+		if schema.Ref == nil && !schema.IsCustom() && schema.IsNullable() && schema.Kind() != SchemaKindObject {
 			return zero, nil, fmt.Errorf("schema component %q: 'nullable' on a component of a primitive or array type is not supported (declare it on the property, parameter or items that use the type)", c.Name)
 		}
 		imports = append(imports, ims...)
@@ -77,11 +77,16 @@ func NewComponents(spec specification.Components, cfg Config) (zero Components, 
 				default:
 					name += PublicFieldName(cnt.Name)
 				}
-				schema, ims, err := NewSchema(cnt.V.Schema, cs, cfg)
+				schema, ims, err := NewSchema(cnt.V.Schema, NamedComponenter{cs, name}, cfg)
 				if err != nil {
 					return zero, nil, fmt.Errorf("new schema for %q type, %q content: %w", rb.Name, cnt.Name, err)
 				}
 				imports = append(imports, ims...)
+				if schema.Ref == nil && schema.Kind() == SchemaKindObject && !schema.IsCustom() {
+					// an object defined in place: a type of its own with the JSON methods of every generated object
+					cs.AddSchema(name, schema, cfg)
+					continue
+				}
 				cs.RequestBodies = append(cs.RequestBodies, RequestBodyComponent{
 					Name:        name,
 					Description: rb.V.Value().Description,
